@@ -342,3 +342,101 @@ def check_C20():
                 "and the bytes on the stream / existence and bytes of the file are compared with the specification; at the end the output is compared with a directly constructed "
                 "storage.NewWritable given the same puts" % n,
                 "TLC enumerates the complete behaviour tree of Deferred.tla and checks Lazy / OnceFiresOnce / ClosedIsFinal / AppendOnly")
+
+
+# ---------------------------------------------------------------------------------------------
+# C06 / C16: observation records validated by TLC
+
+def validate_obs(module, obs_path, env_extra=None):
+    import re
+    env = {"VERIF_OBS": obs_path}
+    env.update(env_extra or {})
+    val = run_tlc(module, module + ".cfg", workers=1, timeout=3000, env=env)
+    nobs = sum(1 for _ in open(obs_path))
+    txt = open(val["out"], errors="replace").read()
+    m = re.search(r'"VALIDATED", (\d+)', txt)
+    if not m or int(m.group(1)) != nobs:
+        raise Inconclusive("%s did not consume all %d observations\n%s" % (module, nobs, val["tail"]))
+    rejects = set(int(x) for x in re.findall(r'<<"REJECT", (\d+)>>', txt))
+    recs = []
+    if rejects:
+        for i, l in enumerate(open(obs_path), 1):
+            if i in rejects:
+                recs.append(json.loads(l))
+    return val, nobs, recs
+
+
+def check_C06():
+    vh = build_harness()
+    check_alphabet(vh)
+    obs, sess, proto = [os.path.join(scratch(), n) for n in ("cr_obs.ndjson", "cr_sess.ndjson", "cr_proto.ndjson")]
+    rc, rep = harness_run(vh, ["crash-enum", "@REPORT", obs, sess, proto, "tier=" + tier()], timeout=3000)
+    val, nobs, rejected = validate_obs("CrashObs", obs)
+    # I-layer: the recorded write logs against the write protocol
+    import re
+    pv = run_tlc("WriteProto", "WriteProto.cfg", workers=1, timeout=1200, env={"VERIF_PROTO": proto})
+    ptxt = open(pv["out"], errors="replace").read()
+    drift = []
+    if '"ACCEPTED"' not in ptxt or not pv["ok"]:
+        m = re.search(r'<<"STUCK", (\d+)>>', ptxt)
+        line = ""
+        if m:
+            for i, l in enumerate(open(proto), 1):
+                if i == int(m.group(1)):
+                    line = l.strip()
+        drift.append("write log rejected by WriteProto.tla at event %s: %s %s" % (m.group(1) if m else "?", line, pv.get("violated") or ""))
+    sessions = {}
+    for l in open(sess):
+        s = json.loads(l)
+        sessions[s["sid"]] = s
+    viols = []
+    for o in rejected:
+        s = sessions.get(o["sid"], {})
+        cls = "crash/%s/%s/%s/%s" % (o["call"], o["wkind"], "torn" if o["torn"] else "boundary",
+                                     "refused-but-damaged" if o["reopen"] == "err" else "resumed-wrongly")
+        viols.append({"class": cls,
+                      "detail": "session %s %s opts %s, cut at op %d byte %d (%s/%s): reopen %s; acked %s keys %s unknown %d getok %s contok %s %s" % (
+                          s.get("kind"), json.dumps(s.get("shape")), json.dumps(s.get("o")), o["i"], o["k"], o["call"], o["wkind"], o["reopen"],
+                          o["acked"], o["keys"], o["unknown"], o["getok"], o["contok"], o["msg"][:300]),
+                      "replay": {"family": "crash", "session": s, "obs": o}})
+    cov = {"evaluations": rep["evaluations"], "distinct_nontrivial": rep["distinct_nontrivial"], "states": nobs, "transitions": nobs,
+           "traces_validated_against_impl": nobs,
+           "rule": "sessions = {blockstore.ReadWrite (write log from the verif hook on the real file), storage.StorageCar (recording ReaderAtWriterAt)} x %d option sets x %d shapes "
+                   "(fresh, finalized-then-resumed, discarded-then-resumed, resumed-without-puts, ...); for the last session of each shape EVERY operation boundary and EVERY byte inside "
+                   "every write (long data writes: both ends + stride 97) is materialised as a crash image, reopened with the real resumption code, observed (AllKeysChan/Has/Get), continued with two "
+                   "puts + Finalize and decoded by the reference decoder + Inspect(true); each observation is validated by TLC against CrashObs!CrashSafe; the write logs are validated against the "
+                   "I-layer WriteProto.tla" % (rep["counters"].get("sessions", 0) // 2 // max(1, (6 if tier() == "quick" else 10)), 6 if tier() == "quick" else 10),
+           "samples": rep["samples"] or [{}], "counters": rep["counters"], "write_log_events_validated": sum(1 for _ in open(proto)),
+           "tlc_validate_cmd": val["cmd"], "exhaustive": True}
+    finish("C06", "fault_enumeration", cov, viols, inconclusive=rep.get("inconclusive") or None, drift=drift or None,
+           assumptions=["a crash preserves a prefix of the issued writes, the last one possibly torn (no reordering by the file system)",
+                        "refusing to resume is acceptable as long as acknowledged sections stay on disk"])
+
+
+def check_C16():
+    vh = build_harness()
+    obs = os.path.join(scratch(), "ft_obs.ndjson")
+    rc, rep = harness_run(vh, ["fault-enum", "@REPORT", obs, "tier=" + tier()], timeout=3000)
+    val, nobs, rejected = validate_obs("FaultObs", obs)
+    viols = []
+    for o in rejected:
+        target = "stream" if o["stream"] else ("v1-file" if o["v1"] else "v2")
+        if not o["errret"]:
+            sym = "error-swallowed"
+        elif o["visible"]:
+            sym = "failed-block-visible"
+        elif not o["well"]:
+            sym = "archive-not-wellformed"
+        else:
+            sym = "archive-holds-unacknowledged-block"
+        cls = "fault/%s/%s/%s/%s" % (o["call"], target, o["cont"], sym)
+        viols.append({"class": cls, "detail": "session %d: write #%d fails after persisting %d bytes during %s, continuation %s: %s %s" % (
+            o["sid"], o["w"], o["k"], o["call"], o["cont"], sym, o["msg"][:300]), "replay": {"family": "fault", "obs": o}})
+    cov = {"evaluations": rep["evaluations"], "distinct_nontrivial": rep["distinct_nontrivial"], "states": nobs, "transitions": nobs,
+           "traces_validated_against_impl": nobs,
+           "rule": "storage.NewReadableWritable over a fault-injecting ReaderAtWriterAt (CARv2, CARv2 padded, CARv1) and storage.NewWritable over a failing plain stream: a transient fault at EVERY write "
+                   "of the session (constructor, every section write, every index/header write of Finalize) x EVERY number of persisted bytes 0..len-1 x continuation {retry, next put, finalize at once}; "
+                   "each observation validated by TLC against FaultObs!FaultSafe", "samples": rep["samples"] or [{}], "counters": rep["counters"], "tlc_validate_cmd": val["cmd"],
+           "exhaustive": True}
+    finish("C16", "fault_enumeration", cov, viols, inconclusive=rep.get("inconclusive") or None,
+           assumptions=["faults are injected at the io.WriterAt / io.Writer boundary; blockstore.ReadWrite shares Put's write path (LdWrite through OffsetWriteSeeker) and is covered through it"])
